@@ -194,7 +194,10 @@ func buildWAF(directives string) (h *wafHandle, err error) {
 			}
 			h.ErrCB = append(h.ErrCB, cbRec{TxID: mr.TransactionID(), RuleID: mr.Rule().ID()})
 		}).
-		WithDebugLogger(debuglog.Default().WithOutput(&h.DebugBuf).WithLevel(debugLevel))
+		// a logger that already carries default fields, as integrations that tag
+		// their log lines configure it (two With calls leave spare capacity in the
+		// field buffer, which every transaction's logger is derived from)
+		WithDebugLogger(debuglog.Default().WithOutput(&h.DebugBuf).WithLevel(debugLevel).With(debuglog.Str("component", "coraza-sim")).With(debuglog.Str("node", "n1")))
 	w, err := coraza.NewWAF(cfg)
 	if err != nil {
 		return nil, err
